@@ -7,7 +7,8 @@ Model/BM.lean — executable model of
 * `linearComplexity`        mirrors the Python wrapper `LinearComplexity` around the pybind
   function `LfsrLength` (size check, `int.to_bytes`, C++ result).  The value computed by the
   C++ code is *modelled by the same loop* (`bmLength`): the two C++ variants (portable, CLMUL)
-  are implementations, not models, and are tied to this file by the correspondence check;
+  have their own word-level model in Model/BMCpp.lean, PROVED to return `lfsrLengthStr` below
+  (`C14Cpp.cpp_matches_wrapper_model`);
 * `lfsrCount`, `lfsrLogProbability` mirror `LfsrCount`, `LfsrLogProbability`.
 
 No Mathlib (links into the native driver).  `Nat` bit operations are GMP-backed natively and
